@@ -30,7 +30,10 @@ EventClause(r) ==
   ELSE IF ~r.json_ok THEN "json-form-does-not-validate-against-the-schema"
   ELSE IF r.out2 # want \/ r.dout2 # r.din \/ r.data2 # r.data \/ r.id2 # r.id THEN "rebuilding-from-json-gives-a-different-event"
   ELSE IF r.out3 # want \/ r.dout3 # r.din \/ r.data3 # r.data \/ r.id3 # r.id THEN "rebuilding-from-the-event-gives-a-different-event"
-  \* the JSON form is the form of the event as it is now: after the caller changed data (in place) and duration
-  ELSE IF r.out4 # want \/ r.dout4 # r.dur_now \/ r.data4 # r.data_now \/ r.id4 # r.id THEN "json-form-is-stale-after-the-event-changed"
+  \* an instant assigned later through the timestamp setter is normalised like the constructor's (r.inp2 = r.inp when
+  \* nothing was assigned), and the JSON form is the form of the event as it is now: after the caller assigned a new
+  \* instant / duration and changed data in place
+  ELSE IF r.out_set # Normalize(r.inp2) THEN "assigned-instant-not-utc-millisecond-floor"
+  ELSE IF r.out4 # Normalize(r.inp2) \/ r.dout4 # r.dur_now \/ r.data4 # r.data_now \/ r.id4 # r.id THEN "json-form-is-stale-after-the-event-changed"
   ELSE "none"
 =============================================================================
